@@ -145,12 +145,13 @@ def check_case(case):
             if list(ta) != list(tb):
                 v.fail(f"C13:c:keys:{kind}", "order keys differ between conjugated runs")
                 continue
+            floor = run.noise_floor(ta, tb)
             for k in ta:
                 s = max(run.maxabs(ta[k]), run.maxabs(tb[k]))
                 nz = nz or s > 0
                 d = run.maxabs(tb[k] - sign * _flip_rows(ta[k]))
-                v.metric("c:conjugation", d / (RTOL * s + 1e-300))
-                if not d <= RTOL * s + 1e-300:
+                v.metric("c:conjugation", d / (RTOL * s + floor))
+                if not d <= RTOL * s + floor:
                     v.fail(
                         f"C13:c:conjugation:{kind}:{case['meta']['heavyness']}",
                         f"O_{pb}[p] != {sign:+.0f} O_{pa}[-p]: |d|={d:.3e} scale {s:.3e} key {k}",
@@ -165,6 +166,7 @@ def check_case(case):
             nf = cards.nf_ref(th, kin["Q2"])
             ts = run.tensors(r)
             groups = [[q for q in (1, 3, 5) if q <= nf], [q for q in (2, 4, 6) if q <= nf]]
+            floor = run.noise_floor(ts)
             for k, t in ts.items():
                 s = run.maxabs(t)
                 nz = nz or s > 0
@@ -172,8 +174,8 @@ def check_case(case):
                     for q in g[1:]:
                         for sgn in (1, -1):
                             d = run.maxabs(t[run.ROW[sgn * q]] - t[run.ROW[sgn * g[0]]])
-                            v.metric("d:equal-charge", d / (RTOL * s + 1e-300))
-                            if not d <= RTOL * s + 1e-300:
+                            v.metric("d:equal-charge", d / (RTOL * s + floor))
+                            if not d <= RTOL * s + floor:
                                 v.fail(
                                     f"C13:d:equal-charge-rows:{kind}",
                                     f"rows {sgn*q} and {sgn*g[0]} differ by {d:.3e} (scale {s:.3e}) key {k} nf={nf}",
